@@ -195,3 +195,11 @@ def r7(ctx):
                f"{rec[0][1].name.split(':', 1)[1]} calls itself to take the next frame ({len(rec)} of {len(kept)} continuing paths): every ping answered inside one receive call adds a stack "
                f"level, the call dies with RecursionError after about a thousand control frames / fragments and the pings behind it are never answered",
                (rec[0][1].loc if rec else loc) or loc, {"path": path_text(rec[0][0])} if rec else None)
+
+
+@rule("R-C07-8", min_instances=2, title="the pong survives any short-write pattern: the resend loop continues at data[accepted:] of the *remaining* buffer until nothing is left (three and more partial writes included)")
+def r_sib_r_c07_8(ctx):
+    from .c12 import r2 as resend_loop
+    from .c01 import r6 as returns_frame_length
+    resend_loop(ctx)
+    returns_frame_length(ctx)
